@@ -387,6 +387,12 @@ def handle (args : List String) : String :=
     | some (x, []) =>
       two (outS renderVal ((encodeV x).map decodeV)) (if jsonShapedB x then "ok " ++ renderVal x else "nopanic")
     | _ => "bad-op"
+  | ["showlist", ns] =>
+    match (ns.splitOn ",").mapM parseNInt with
+    | some xs =>
+      let spec : Str := [91] ++ (List.intercalate [44, 32] (xs.map fun x => showInt false 10 x.val)) ++ [93]
+      two ("ok " ++ renderStr (fmtIntList xs)) ("ok " ++ renderStr spec)
+    | none => "bad-op"
   | ["int_rt", n] =>
     match parseNInt n with
     | some x => two (outS renderInt (intOfStr (showNInt x))) ("ok " ++ renderInt x.val)
